@@ -82,7 +82,10 @@ EXHAUSTIVE_SUBSPACES = {
 DOT_LEXI = "dot:integer-labels-ordered-as-strings"
 DEFAULT = "<default>"
 NAMES = (DEFAULT, "a single line name", "", "name with trailing newline\n", 'a "quoted" name', "from file 'it''s \"x\".gml'", "ends with \\",
-         "semi;colon { brace", "a -- b -> c", "c comment", "p edge 3 2")
+         "semi;colon { brace", "a -- b -> c", "c comment", "p edge 3 2",
+         # names of several lines, and the characters that some line splitters take for a line end and others do not
+         "two\nlines", "tail looks like data\n1 : 2 3 0", "tail\ne 1 3", "tail\np edge 9 0\n2", "carriage\rreturn",
+         "form\x0cfeed 1 : 2 0", "line\u2028separator 2", "next\x85line", "vertical\x0btab", "file\x1cseparator 3 : 1 0")
 
 
 # ------------------------------------------------------------------ plumbing
@@ -1032,11 +1035,15 @@ CORPUS = {
     "kthlist": ["", "\n", "c only a comment\n", "c x\n\n\n", "3\n1 : 2 0\n1 : 3 0\n", "5\n1 : 4 0\n1 : 5 0\n2 : 4 0\n",
                 "3\n2 : 3 0\n1 : 3 0\n", "3\n\n1 : 2 0\n\n", "3\n1 : 2\n", "3\n1 : 4 0\n", "3\n0 : 0\n", "2\n2\n", "x\n",
                 "3\n1 : 1 0\n", "3\n2 : 1 0\n3 : 2 0\n", "3\n1 : 3 0\n3 : 1 0\n", "-1\n", "3\n1 : 2 0 \n", "3\r\n1 : 2 0\r\n",
-                "1 : 2 0\n3\n", "3\n1 : 2 0 3 0\n", "4\n1 : 3 0\n3 : 4 0\n", "12\n12 : 1 10 0\n2 : 1 0\n"],
+                "1 : 2 0\n3\n", "3\n1 : 2 0 3 0\n", "4\n1 : 3 0\n3 : 4 0\n", "12\n12 : 1 10 0\n2 : 1 0\n",
+                # comments holding a character that str.splitlines() takes for a line end and a text file does not
+                "3\nc x\x0c1 : 2 0\n2 : 0\n3 : 0\n", "3\nc x\u20281 : 2 3 0\n", "3\n1 : 2 0\nc \x852 : 3 0\n",
+                "c about\x0b3\n3\n1 : 3 0\n", "4\n1 : 2 0\nc a\x1c3 : 4 0\nc b\x1d2 : 3 0\nc c\x1e1 : 4 0\n", "3\nc \u20291 : 3 0\n1 : 2 0\n"],
     "dimacs": ["", "\n", "p edge 3 1\n\ne 1 2\n", "\np edge 2 0\n", "p edge 2 1\ne 1 2\n\n", "c only\n", "p edge 3 2\ne 1 2\n",
                "p edge 3 1\ne 1 4\n", "e 1 2\np edge 3 1\n", "p edge 3 1\ne 2 1\n", "p edge 3 1\ne 2 2\n", "p edge 3 1\ne 1 x\n",
                "p edge 3\n", "p col 3 1\ne 1 2\n", "p edge 3 1\np edge 3 1\ne 1 2\n", "p edge 3 2\ne 1 2\ne 2 1\n",
-               "p edge 3 1\ne 1 2 3\n", "   \np edge 1 0\n", "p edge 12 2\ne 2 10\ne 10 11\n", "p edge 3 1\r\ne 1 2\r\n"],
+               "p edge 3 1\ne 1 2 3\n", "   \np edge 1 0\n", "p edge 12 2\ne 2 10\ne 10 11\n", "p edge 3 1\r\ne 1 2\r\n",
+               "c x\x0cp edge 2 0\np edge 3 1\ne 1 2\n", "p edge 3 1\nc y\u2028e 2 3\ne 1 2\n", "p edge 3 1\ne 1 2\nc \x85e 1 3\n"],
     "matrix": ["", "\n", "2 2\n1 0\n0 1\n", "2 2\n1 0\n0\n", "2 2\n1 0\n0 1 1\n", "2 2\n1 0\n0 2\n", "2 2\n1 0\n0 x\n", "-1 2\n",
                "2\n", "0 0\n", "# c\n1 1\n\n1\n", "1 1\n1 # t\n", "2 2 1 0 0 1 0\n", "1 12\n0 0 0 0 0 0 0 0 0 1 0 1\n"],
     "gml": ["", "graph [\n]\n", "graph [\n  node [\n    id 0\n    id 0\n  ]\n]\n", "graph 3\n",
@@ -1067,6 +1074,60 @@ def case_fixed(ctx):
                 for text in CORPUS[fmt]:
                     ctx.count("corpus_texts")
                     judge_text(ctx, text, gtype, fmt, "stringio", ["corpus"], scratch)
+
+
+def case_dot_spellings(ctx, rseed):
+    """dot files whose vertex names are all integer literals, some of them different spellings of one integer
+    ('1' and '01', '7' and '007', '10' and '1_0'): different names are different vertices.  Either the file is
+    refused (ValueError) or the graph has one vertex per name and one edge per line of the file."""
+    g = G_()
+    if not g.has_dot_library():
+        ctx.count("dot_library_missing")
+        return
+    r = ctx.rng("dotspell", rseed)
+    groups = [["1", "01"], ["7", "007", "07"], ["10", "1_0"], ["2", "02", "3"], ["4", "04", "5", "05"], ["0", "00", "1"], ["12", "012", "3", "03"]]
+    for names in groups:
+        for gtype in ("simple", "digraph", "dag", "bipartite"):
+            names_ = list(names)
+            r.shuffle(names_)
+            extra = [str(x) for x in r.sample(range(20, 40), r.randint(0, 2))]
+            vs = names_ + extra
+            pairs = [(a, b) for i, a in enumerate(vs) for b in vs[i + 1:]]
+            chosen = r.sample(pairs, min(len(pairs), r.randint(1, 4)))
+            if gtype == "bipartite":
+                left = vs[: max(1, len(vs) // 2)]
+                right = vs[len(left):]
+                if not right:
+                    continue
+                chosen = [(a, b) for a in left for b in right if r.random() < 0.6] or [(left[0], right[0])]
+                body = "".join('"%s" [bipartite=%d];\n' % (v, 0 if v in left else 1) for v in vs)
+                body += "".join('"%s" -- "%s";\n' % e for e in chosen)
+                text = "strict graph {\n%s}\n" % body
+            elif gtype == "simple":
+                text = "strict graph {\n%s%s}\n" % ("".join('"%s";\n' % v for v in vs), "".join('"%s" -- "%s";\n' % e for e in chosen))
+            else:
+                text = "strict digraph {\n%s%s}\n" % ("".join('"%s";\n' % v for v in vs), "".join('"%s" -> "%s";\n' % e for e in chosen))
+            for quoted in (True, False):
+                t = text if quoted else text.replace('"', "")
+                st, val = read_text(ctx, t, gtype, "dot")
+                ctx.count("dot_texts_with_two_spellings_of_an_integer")
+                where = "dot text read as %s with vertex names %r" % (gtype, vs)
+                if st == "exc":
+                    if not isinstance(val, ValueError):
+                        ctx.violation(exc_mechanism("dot", gtype, val, t), "%s: raised %s: %s" % (where, type(val).__name__, val), text=t)
+                    else:
+                        ctx.count("texts_refused_with_ValueError")
+                    continue
+                got = observe(val, gtype)
+                if got is None:
+                    ctx.violation("reader:dot:result-is-not-a-%s-graph" % gtype, "%s: returned %r" % (where, val), text=t)
+                    continue
+                nv = (got[1] + got[2]) if gtype == "bipartite" else got[1]
+                ne = len(got[-1])
+                if nv != len(vs) or ne != len(set(chosen)):
+                    ctx.violation("reader:dot:names-spelling-one-integer-merged", "%s: the text declares %d vertices and %d edges, the "
+                                  "reader returned %d vertices and %d edges" % (where, len(vs), len(set(chosen)), nv, ne), text=t)
+                ctx.judged(("dotspell", gtype, tuple(vs), quoted), nontrivial=True, sample={"gtype": gtype, "names": vs})
 
 
 def case_texts(ctx, gtype, fmt, rseed, count, channel="stringio"):
@@ -1251,6 +1312,7 @@ def workload(tier, seed):
     yield "huge_sparse", {"gtype": "bipartite"}
     yield "huge_sparse", {"gtype": "simple"}
     yield "locale", {"rseed": seed}
+    yield "dot_spellings", {"rseed": seed}
     for gtype in ("simple", "dag", "digraph", "bipartite"):
         for fmt in {"simple": ["kthlist", "gml", "dimacs"], "digraph": ["kthlist", "gml", "dimacs"], "dag": ["kthlist", "gml", "dimacs"],
                     "bipartite": ["kthlist", "gml", "matrix"]}[gtype]:
